@@ -67,7 +67,7 @@ Lemma seq_split2 a n : a <= n -> seq 0 n = seq 0 a ++ seq a (n - a).
 Proof. intros H. replace n with (a + (n - a)) at 1 by lia. rewrite seq_app. reflexivity. Qed.
 
 Section RG.
-Variables (courses : list course) (parts : list participant) (pick : node -> list bool -> assignment -> list node).
+Variables (courses : list course) (parts : list participant) (rgate : node -> assignment -> out (option (list node))) (pick : node -> list bool -> assignment -> list node).
 Notation np := (np parts). Notation nc := (nc courses). Notation m_ := (m_ courses). Notation n_ := (n_ courses parts).
 Notation crs := (crs courses). Notation base := (base courses). Notation course_map := (course_map courses).
 Variable nd : node.
@@ -107,10 +107,14 @@ Proof.
   - intros p c c' H H'. unfold opt_is in *. destruct (getO a p); [|discriminate]. apply Nat.eqb_eq in H, H'. congruence.
 Qed.
 
+(* the room stage itself does not fail (its own panic sites are C10's subject) *)
+Hypothesis Hrg : forall nd a, exists o, rgate nd a = Val o.
+
 Theorem relax_ge_node :
-  match run courses parts pick nd with
+  match run courses parts rgate pick nd with
   | Val (Infeasible _ s) | Val (Feasible _ s) => (placed_weight courses parts nd a + instr_score courses parts nd <= s)%Z
   | HOverflow => True
+  | Panic 5 => True     (* the assert of check_feasibility; excluded separately (Cov5.enforced_reaches_min) *)
   | _ => False
   end.
 Proof.
@@ -168,6 +172,8 @@ Proof.
   pose proof (hungarian_correct (adjacency courses parts) (dummy_x courses parts) my sx sy n_ m_ pm Hpm) as HC.
   destruct (hungarian (adjacency courses parts) (dummy_x courses parts) my sx sy n_ m_) as [[[[mm ms] lx] ly]| |]; [|destruct HC|exact I].
   destruct HC as (_ & _ & Hopt). specialize (Hopt pm Hpm). rewrite Hw in Hopt.
+  destruct (Hrg nd (add_instr courses nd (amatch courses parts sy mm))) as (o & ->). destruct o as [bs|]; [lia|].
+  destruct (negb _ && existsb _ (seq 0 nc)); [exact I|].
   destruct (existsb _ _ || existsb _ _); lia.
 Qed.
 End RG.
